@@ -6,7 +6,7 @@
    once, in emission order, except the frames of a given drop set, and fires retransmission
    time-outs only when nothing else can happen.  harness/cmd/h_tcp2 runs the same pump on two REAL
    endpoints of the implementation; Corr/C02sys.v replays its moves on [isys_step];
-   Proofs/TcpSysLiveP.v proves [isys_run] equal to [TcpNetP.sys_run] and evaluates the pump over
+   Proofs/TcpSysLiveBaseP.v proves [isys_run] equal to [TcpNetP.sys_run]; Proofs/TcpSysLive*P.v evaluate the pump over
    finite scenario / drop-set domains.
    Loss of HANDSHAKE packets is outside this system: it starts from the two states a completed
    handshake leaves behind (Model/TcpEst.v).
